@@ -36,3 +36,41 @@ def lt (a b : Int × Int × Int) : Prop :=
   a.1 < b.1 ∨ (a.1 = b.1 ∧ (a.2.1 < b.2.1 ∨ (a.2.1 = b.2.1 ∧ a.2.2 < b.2.2)))
 
 end Tyme.Civil
+
+namespace Tyme.Civil
+/-! Executable ordinal (days since 0001-01-01), written by summation — used by the sweep only. -/
+
+def sumYears (y : Int) : Int := Id.run do
+  let mut s : Int := 0
+  for k in [1:y.toNat] do
+    s := s + daysInYear k
+  return s
+
+def sumMonths (y m : Int) : Int := Id.run do
+  let mut s : Int := 0
+  for k in [1:m.toNat] do
+    s := s + daysIn y k
+  return s
+
+/-- position of day d inside its month, 0-based, counting only days that exist -/
+def posInMonth (y m d : Int) : Int := if y == 1582 && m == 10 && d ≥ 15 then d - 11 else d - 1
+
+def ord (y m d : Int) : Int := sumYears y + sumMonths y m + posInMonth y m d
+
+def totalDays : Int := sumYears 10000
+
+def ofOrd (k : Int) : Option (Int × Int × Int) := Id.run do
+  if k < 0 ∨ k ≥ totalDays then return none
+  let mut r := k
+  let mut y : Int := 1
+  while r ≥ daysInYear y do
+    r := r - daysInYear y
+    y := y + 1
+  let mut m : Int := 1
+  while r ≥ daysIn y m do
+    r := r - daysIn y m
+    m := m + 1
+  let d := if y == 1582 && m == 10 && r ≥ 4 then r + 11 else r + 1
+  return some (y, m, d)
+
+end Tyme.Civil
